@@ -358,6 +358,13 @@ pub fn hf_json(rng: &mut Rng, variant: usize) -> Vec<u8> {
         added.push_str(r#",{"id":9,"content":"","single_word":false,"lstrip":false,"rstrip":false,"normalized":false,"special":true}"#);
     }
     added.push(']');
+    if variant % 3 != 1 && rng.chance(1, 3) {
+        // the unknown token is not the first added token: its position in the list differs from its id
+        added = format!(
+            r#"[{{"id":2,"content":"b","single_word":false,"lstrip":false,"rstrip":false,"normalized":true,"special":false}},{}"#,
+            &added[1..]
+        );
+    }
     let pre = match variant % 6 {
         0 => r#"{"type":"ByteLevel","add_prefix_space":false,"trim_offsets":true,"use_regex":true}"#.to_string(),
         1 => format!(r#"{{"type":"Split","pattern":{{"Regex":"{}"}},"behavior":"Isolated","invert":false}}"#, if odd(rng) { "((" } else { "\\s+" }),
